@@ -19,7 +19,7 @@ def scratch_copy(rev=None):
     if rev:
         subprocess.run("git -C /repo archive %s src | tar -x -C %s" % (rev, d), shell=True, check=True)
     else:
-        shutil.copytree("/repo/src", os.path.join(d, "src"), ignore=shutil.ignore_patterns("__pycache__", "*.egg-info"))
+        shutil.copytree("/repo/src", os.path.join(d, "src"), symlinks=True, ignore=shutil.ignore_patterns("__pycache__", "*.egg-info"))
     return d
 
 
